@@ -340,6 +340,7 @@ Inductive sop :=
 | ImmClose (si sh : N)
 | ImmAbort (si sh : N)
 | ImmWriteHttp (si sh size : N) (prev : list (N * N)) (off : N) (data : list N)
+| ImmCloseFailed (si sh : N)
 | AddLease (si : N) (order : list N) (rec_imm rec_mut : list N)
 | RenewLease (si : N) (order : list N) (hs : list N) (newexp : N)
 | MutWritev (si : N) (order : list N) (nodeid we : list N) (tw : list tw_entry)
@@ -489,6 +490,11 @@ Definition ops_of (o : sop) (s : state) : list lop :=
       then [(WriteAt (Incoming si sh) (12 + off) data, false)] else []
   | ImmClose si sh => [(Rename (Incoming si sh) (Final si sh), false)]
   | ImmAbort si sh => [(Unlink (Incoming si sh), false)]
+  | ImmCloseFailed si sh =>
+      (* close() when rename(2) into the final place fails (incoming/ on another
+         file system: EXDEV; any OSError): fileutil.rename retries and gives up,
+         close() raises, no file is written; the share stays under incoming/ *)
+      []
   | ImmWriteHttp si sh size prev off data =>
       (* HTTPServer.write_share_data: bucket.write(), and bucket.close() as soon
          as write() reports the upload finished; `prev` = ranges accepted before *)
@@ -522,6 +528,7 @@ Definition touched (o : sop) : list path :=
   | ImmClose si sh => [Incoming si sh; Final si sh]
   | ImmAbort si sh => [Incoming si sh]
   | ImmWriteHttp si sh _ _ _ _ => [Incoming si sh; Final si sh]
+  | ImmCloseFailed _ _ => []
   | AddLease si order _ _ => map (Final si) order
   | RenewLease si order _ _ => map (Final si) order
   | MutWritev si _ _ _ tw _ => map (fun e => Final si (tw_sh e)) tw
